@@ -73,6 +73,25 @@ def check_factory(p):
     eq(devs, "pack_after_refused_id_update", raw2, raw)
     y2 = PduFactory.from_raw(raw2)
     true(devs, "from_raw.type_after_refused_id_update", type(y2) is cls, f"got {type(y2).__name__}")
+    # one holder reused for PDUs of different kinds (through the attribute and through the deprecated alias): accessors follow what is held now
+    import warnings
+
+    q = M.other_pdu(p)
+    other_obj = M.build_pdu(q)
+    hr = PduHolder(original)
+    getattr(hr, ACCESSOR[kind])()
+    hr.pdu_directive_type  # noqa: B018 - queried in between on purpose
+    for how in ("pdu", "base"):
+        with warnings.catch_warnings():
+            warnings.simplefilter("ignore")
+            setattr(hr, how, other_obj)
+        true(devs, f"holder_reuse.{how}.new_kind", getattr(hr, ACCESSOR[q["kind"]])() is other_obj, "accessor for the PDU now held failed")
+        if q["kind"] != kind:
+            expect_raise(devs, f"holder_reuse.{how}.old_kind", getattr(hr, ACCESSOR[kind]), accept=(TypeError,))
+        with warnings.catch_warnings():
+            warnings.simplefilter("ignore")
+            setattr(hr, how, original)
+        true(devs, f"holder_reuse.{how}.back", getattr(hr, ACCESSOR[kind])() is original, "accessor after switching back failed")
     # a holder built directly around the original object behaves the same
     h2 = PduHolder(original)
     for k2, acc in ACCESSOR.items():
@@ -114,6 +133,40 @@ def enum_large(tier, shard, nshards, rng):
             yield c
 
 
+def enum_sizes(tier, shard, nshards, rng):
+    """File Data PDUs through the factory for every data-field length in 0..1300 and around every multiple of 256 up to the limit
+    (a length-dependent slip in the factory's own buffer handling shows only for narrow residue classes)."""
+    i = 0
+    for hconf in ({"crc": 0, "large": 0, "idw": 1, "seqw": 1}, {"crc": 1, "large": 1, "idw": 2, "seqw": 4}, {"crc": 0, "large": 0, "idw": 8, "seqw": 8}):
+        conf = {"mode": 1, "dir": 0, "segctrl": 0, "src": 1, "dst": 2, "seq": 3, **hconf}
+        fixed = (8 if conf["large"] else 4) + (2 if conf["crc"] else 0)
+        dlens = list(range(fixed, 1301)) + [k * 256 + d for k in (6, 8, 16, 31, 32, 64, 127, 128, 200, 255) for d in range(-12, 3)] + [65535 - d for d in range(0, 12)]
+        for dlen in dlens:
+            if fixed <= dlen <= 65535:
+                i += 1
+                if i % nshards == shard and (tier == "thorough" or i % 3 == 0 or dlen > 1301 or 480 <= dlen <= 520):
+                    yield {"conf": conf, "dlen": dlen}
+
+
+def check_size(c):
+    from spacepackets.cfdp.pdu.helper import PduFactory
+
+    conf = c["conf"]
+    fixed = (8 if conf["large"] else 4) + (2 if conf["crc"] else 0)
+    p = {"kind": "filedata", "conf": conf, "offset": 0x01020304, "data": {"len": c["dlen"] - fixed, "fill": c["dlen"] & 0xFF, "step": 1}, "meta": None}
+    raw = M.ref_pdu(p)
+    devs = []
+    eq(devs, "size.precondition_dlen", len(raw) - R.header_len(conf), c["dlen"])
+    y = PduFactory.from_raw(raw)
+    true(devs, "size.from_raw.type", type(y) is M.pdu_class("filedata"), f"got {type(y).__name__}")
+    if type(y) is M.pdu_class("filedata"):
+        eq(devs, "size.from_raw.repack", bytes(y.pack()), raw)
+        eq(devs, "size.from_raw.data_len", len(y.file_data), c["dlen"] - fixed)
+    h = PduFactory.from_raw_to_holder(raw + b"\x00" * (c["dlen"] % 3))
+    eq(devs, "size.holder.packet_len", h.packet_len, len(raw))
+    return devs
+
+
 def check_large(c):
     if c["kind"] == "nak":
         c = dict(c, segs=[[i, i + 1] for i in range(c["segs"]["n"])])
@@ -130,6 +183,19 @@ CLAUSES.append(
         classify=lambda c: [c["kind"]] + (["crc on"] if c["conf"]["crc"] else []) + (["large file"] if c["conf"]["large"] else []),
         required=["filedata", "nak", "crc on", "large file"],
         shards={"quick": 8, "thorough": 8},
+    )
+)
+
+CLAUSES.append(
+    Clause(
+        id="C12.sizes",
+        doc="File Data PDUs through the factory for every data-field length up to 1300 and around multiples of 256 up to 65535 (thorough: all; quick: every third plus the bands)",
+        kind="enum",
+        enum=enum_sizes,
+        check=check_size,
+        classify=lambda c: ["dlen < 256" if c["dlen"] < 256 else ("dlen < 1301" if c["dlen"] < 1301 else "dlen near a multiple of 256")],
+        required=["dlen < 256", "dlen < 1301", "dlen near a multiple of 256"],
+        shards={"quick": 8, "thorough": 16},
     )
 )
 
